@@ -352,6 +352,29 @@ def run_case(inp):
                 V("binning-images", f"after binning(2, compute={compute}) molecules registered with tomograms {srcs[:8]} "
                                     f"(image ids {ids[:8]}) are loaded from tomograms {src[:8]}")
                 break
+        # LoaderGroup.apply: row i of every group's table belongs to molecule i of that group, for any number of
+        # functions (also when a group has exactly as many molecules as there are functions)
+        for nf, fs in ((1, [np.mean]), (2, [np.mean, np.max]), (3, [np.mean, np.max, np.min])):
+            try:
+                tabs = b.groupby((pl.col("tag") % 2).alias("k")).apply(fs)
+            except Exception as e:  # noqa: BLE001
+                V("no-error", f"LoaderGroup.apply with {nf} functions raised {type(e).__name__}: {str(e)[:100]}")
+                break
+            bad = None
+            for key, ld in b.groupby((pl.col("tag") % 2).alias("k")):
+                kk = key[0] if isinstance(key, tuple) else key
+                tab = tabs.get(key, tabs.get(kk))
+                srcs_g = [int(x) for x in ld.molecules.features["src"].to_list()]
+                zs_g = [int(round(float(z))) for z in ld.molecules.pos[:, 0]]
+                want_g = [100.0 * (i + 1) + z for i, z in zip(srcs_g, zs_g)]      # constant sub-volume: mean = max = min
+                if tab is None or tab.shape != (len(want_g), nf) or \
+                        any(abs(float(tab[r, c]) - want_g[r]) > 1e-2 for r in range(len(want_g)) for c in range(nf)):
+                    bad = (kk, None if tab is None else tab.shape, len(want_g))
+                    break
+            if bad:
+                V("group-apply-rows", f"LoaderGroup.apply with {nf} functions: table of group {bad[0]} (shape {bad[1]}) does not "
+                                      f"hold one row per molecule ({bad[2]} molecules) with that molecule's values")
+                break
         # groups: partition, re-iterable, derived groups too
         g = b.groupby((pl.col("tag") % 2).alias("k"))
         for label, grp in (("groupby", g), ("groupby.filter", g.filter(pl.col("tag") >= 0)), ("groupby.head", g.head(50)),
